@@ -295,7 +295,9 @@ def stat_model(ctx):
     mod = repo.module("gaftools.cli.stat", "R19.2")
     m = StatModel()
     m.f = None
-    for f in mod.funcs.values():
+    from ..core import inline_access_aliases, tail_inlined
+
+    for f in [inline_access_aliases(tail_inlined(repo, f0)) for f0 in mod.funcs.values()]:
         for n in f.node.body:
             if isinstance(n, ast.For) and "read_file" in norm(n.iter):
                 m.f, m.loop = f, n
